@@ -207,6 +207,10 @@ pub trait Shape: Flat {
     fn native_size_align() -> Option<(usize, usize)> {
         None
     }
+    /// `Default::default()` of a sized type, read back.
+    fn native_default() -> Option<Value> {
+        None
+    }
     fn eq_dyn(&self, _other: &Self) -> Option<bool> {
         None
     }
@@ -255,6 +259,9 @@ macro_rules! sized_glue {
         }
         fn native_size_align() -> Option<(usize, usize)> {
             Some((::core::mem::size_of::<Self>(), ::core::mem::align_of::<Self>()))
+        }
+        fn native_default() -> Option<Value> {
+            Some(<Self as Default>::default().read_plain())
         }
         default_glue!();
     };
@@ -753,6 +760,8 @@ pub struct Consts {
     pub min_size: usize,
     /// (size_of, align_of) for sized types
     pub native: Option<(usize, usize)>,
+    pub has_default: bool,
+    pub native_default: Option<Value>,
 }
 
 pub trait Live {
@@ -848,6 +857,8 @@ impl<T: Shape + ?Sized> DynShape for Of<T> {
             align: T::ALIGN,
             min_size: T::MIN_SIZE,
             native: T::native_size_align(),
+            has_default: T::HAS_DEFAULT,
+            native_default: T::native_default(),
         }
     }
     fn validate(&self, b: &[u8]) -> Result<(), FErr> {
